@@ -120,6 +120,10 @@ TEMPLATES = [
     {"spec": '<start> ::= <Fuzzer:Extern:hello> (<Extern:Fuzzer:ack> <Third:Fuzzer:ack> | <Third:Fuzzer:ack> <Extern:Fuzzer:ack>) <Fuzzer:Extern:bye>\n'
              '<hello> ::= "hello\\n"\n<ack> ::= "ack " <w> "\\n"\n<bye> ::= "bye\\n"\n<w> ::= "a" | "b" | "ab"\nwhere str(<ack>.<w>) != "b"\n',
      "names": ["<start>"], "both": True, "replies": {1: [("Extern", "ack a\n", "hello\n", "ack b\n"), ("Third", "ack ab\n", "nack\n", "ack b\n")]}},
+    # one message type is a proper prefix of another, and the peer's next message is already buffered when the first is parsed
+    {"spec": '<start> ::= <Fuzzer:Extern:ping> (<Extern:Fuzzer:short> | <Extern:Fuzzer:long>) <Extern:Fuzzer:next> <Fuzzer:Extern:bye>\n'
+             '<ping> ::= "ping"\n<short> ::= "ab"\n<long> ::= "abcd"\n<next> ::= "c" <w>\n<bye> ::= "bye"\n<w> ::= "e" | "f" | "x"\nwhere str(<next>.<w>) != "x"\n',
+     "names": ["<start>"], "replies": {1: [("Extern", "abce", "abzz", "abcx"), ("Extern", "abcdcf", "abcdzz", "abcdcx"), ("Extern", "abcf", "azzz", "abcx")]}},
 ]
 
 
@@ -249,6 +253,12 @@ def run_worker(args):
                 problems.append(f"the yielded tree violates {bad_c}")
             if misbehaved and not error_seen:
                 problems.append("the peer misbehaved but the run reports no error")
+            if not misbehaved and error_seen:
+                problems.append(f"every peer behaved according to the spec, yet the run ended with an error: {raised or errors}")
+            if not misbehaved and not error_seen:
+                for s_, all_ in sorted(sent_by_peer.items()):
+                    if accepted.get(s_, "") != all_:
+                        problems.append(f"data sent by {s_} ({all_!r}) is not what the interaction records as received from it ({accepted.get(s_, '')!r})")
             if misbehaved and peer.bad_text and any(str(m.msg) == peer.bad_text and behaviour != "truncated" for m in msgs if m.sender != "Fuzzer"):
                 problems.append("the bad reply was accepted into the interaction tree")
             verdicts.append(problems)
